@@ -242,7 +242,9 @@ struct DWorld : World {
 					int rc; calls.clear(); { Sut s; rc = mpt_dispatch_emit(D, 0); }
 					log.ev("EMIT default (dangling %lx) -> %d", (unsigned long) model_def, rc);
 					if (!calls.empty()) fail("wrong-handler", "default emit with dangling id invoked a handler");
-					model_def = D->_def; outcome = 3;
+					if (rc >= 0 && rc != 0) fail("wrong-result", "default emit whose handler is gone reports flags %x", rc);
+					// a default event without handler is no default event any more: later emits must not advertise one
+					model_def = 0; outcome = 3;
 					break;
 				}
 				char what[64]; snprintf(what, sizeof what, "EMIT default (%lx)", (unsigned long) model_def);
